@@ -19,7 +19,7 @@ LEVEL_TEXT = ('Lean 4 theorems, for all shapes, masks, amplitudes and OPDs: a su
               'a fresh wavefront through any non-empty chain of array-masked partitioned planes, then propagate_dft as the driver models it (generated window block and shapes, a tilt shift common to all fields, optional output mask: segmented_eq_monolithic_propagateDft) -> equal Wavefront.field and intensity at every sample; well-formedness follows from the masks alone for constructed planes (splitPlane_wf_of_masks); Tilt planes anywhere in the chain and Wavefront(tilt=) as ONE theorem (segmented_eq_monolithic_interleaved: every field carries each Tilt once, data unchanged); through propagate_fft by composition with C09 (segmented_eq_monolithic_propagate_fft); chain_exp: the explicit product of amplitude*exp(2 pi i opd/lambda) over the planes. The NumPy plumbing is a hand model checked against the '
               'implementation, with both descriptions run on the real code.')
 LEVEL_NOTE = ('Partial: segments / intermediate fields with exactly one element are excluded by hypothesis (open known finding '
-              'KF-C03-one-pixel-segment; the hypothesis ExtOK is evaluated by the model on every generated case: c03.extok, extOKb_iff); the theorems '
+              'KF-C03-one-pixel-segment; the hypothesis ExtOK is evaluated by the model (c03.extok, extOKb_iff) on every case of the classes the ExtOK theorems cover: segmented-vs-monolithic chains in both number systems and the mixed Tilt/segmented chains; not for the fitted-tilt, re-use and big-aperture classes); the theorems '
               'cover a shift common to all fields (shared Tilt planes, Wavefront(tilt=)), an output mask and propagate_fft (via C09); per-segment '
               'fitted tilts are correspondence + oracle only. '
               'Trusted: Lean kernel, py2lean subset semantics, NumPy semantics as modelled, np.dot sums, generator coverage.')
@@ -31,7 +31,9 @@ RULE = ('cases: random supports on shapes 2..10, partitions into 1..9 segments (
         'monolithic, then propagate_dft with random per-axis sampling (mixed Tilt/segmented chains also with an output mask and single-sample windows); plane objects re-used after setters/copy and rescaled/resampled (oracle-only); an extremes stream (physical units with per-segment OPD classes incl. nanometres, apertures of 1030..2600 rows vs bands <= 1024 rows; 5 % of quick/thorough, half of the failing-input search); plus 3..5 tilted segments (OPD ramps fitted by fit_tilt) propagated with prop_shape < shape so that the per-segment output fields overlap as chains, oversampling 1..3, output shape and prop_shape; exact stream '
         '(no propagation, Gaussian-integer data) and float stream. distinct = canonical (shapes, partition, attribute kinds, propagation '
         'setting) signature; non-trivial = some plane has at least two segments')
-TRUSTED = ['NumPy slicing/broadcasting in Plane.multiply and util.boundary (modelled by hand in Model/Plane.lean)',
+TRUSTED = ['the bounding box of propagate_dft\'s output mask is computed by the harness (lentil.boundary rule) and handed to the model; _mask_shape/_mask_shift are C02\'s',
+           'the propagation models of C02 (propagateDft, generated window) and C09 (propagateFft) that the end-to-end theorems compose',
+           'NumPy slicing/broadcasting in Plane.multiply and util.boundary (modelled by hand in Model/Plane.lean)',
            'np.dot / einsum in fourier.dft2 compute the sums of products (Model/Fourier.lean; C01 checks dft2 itself)',
            'np.exp(1j*t) = cos t + i sin t']
 UNPROVEN = [
@@ -39,7 +41,8 @@ UNPROVEN = [
             'the end-to-end theorems start from a fresh wavefront and use planes with array masks (scalar-mask planes inside the chain: plane_multiply_total only)',
             'planes re-used after the amplitude/OPD setters and copy(), and rescaled/resampled planes (bounding slices of the new mask): oracle only; the interpolation itself is C17',
             'partitions containing a segment (or producing an intermediate field) with exactly one element (known finding KF-C03-one-pixel-segment)']
-ASSUMPTIONS = ['rescaled/resampled planes are judged only when Plane.rescale returns: for small segments the order-0 rescaled mask can lose a layer and rescale then raises IndexError in _plane_slice (C17; reported)',
+ASSUMPTIONS = ['a partition into k = 1 segment is given as the 2-D mask: a 3-D mask with a single layer makes Plane.multiply raise ValueError on the unchanged tree (reported with a candidate fix /tmp/wC/fix_single_layer.diff; single-layer cases are parked on branch wC-single-layer)',
+               'rescaled/resampled planes are judged only when Plane.rescale returns: for small segments the order-0 rescaled mask can lose a layer and rescale then raises IndexError in _plane_slice (C17; reported)',
                'every segment bounding box and every intersection of boxes along the chain has more than one element (ExtOK: a condition on the bounding slices and shapes of the input, used by segmented_eq_monolithic_end_to_end)',
                'segment masks of one plane have pairwise disjoint supports']
 
@@ -347,7 +350,13 @@ def _run(c, planes):
         p = c['prop']
         w2 = lentil.propagate_dft(w, pixelscale=tuple(p['du']), shape=tuple(p['shape']),
                                   prop_shape=None if p['prop_shape'] is None else tuple(p['prop_shape']), oversample=p['os'])
+        # the same propagated wavefront is read several times, in different orders (broadband / detector loops do this):
+        # intensity, field, intensity, insert twice — every read must give the same answer
+        i1 = H7.arr_out(w2.intensity, mode)
         o['field'] = H7.arr_out(w2.field, mode); o['intensity'] = H7.arr_out(w2.intensity, mode); o['nout'] = len(w2.data)
+        a1 = H7.arr_out(w2.insert(np.zeros(w2.shape), 1), mode); a2 = H7.arr_out(w2.insert(np.zeros(w2.shape), 1), mode)
+        f2 = H7.arr_out(w2.field, mode)
+        o['reread_same'] = (i1 == o['intensity'] and a1 == a2 and f2 == o['field'] and a1['re'] == o['intensity']['re'])
     return o
 
 def _chip(f):
@@ -462,6 +471,11 @@ def _req(c, planes):
         r['prop'] = {'dx': vlib.fl(p['dx']), 'du': vlib.fl(p['du']), 'os': p['os'], 'shape': p['shape'], 'prop_shape': p['prop_shape'] or p['shape']}
     return r
 
+def _box_req(pl):
+    """a plane for c03.extok: only the mask matters (bounding boxes); amplitude and OPD are dummies"""
+    r = H7.plane_req(dict(pl, px=None, amp={'scalar': 1.0}, opd={'scalar': 0.0}), 'cf')
+    return r
+
 def _prop_req(p):
     r = {'dx': vlib.fl(p['dx']), 'du': vlib.fl(p['du']), 'os': p['os'], 'shape': p['shape'], 'prop_shape': p['prop_shape'] or p['shape']}
     mk = p.get('mask')
@@ -483,7 +497,9 @@ def _mixed_req(c, planes):
 def requests(c, io):
     if c['kind'] == 'reuse': return []          # oracle-only
     if c.get('extreme') == 'big': return []          # oracle-only (size)
-    if c['kind'] == 'mixed': return [_mixed_req(c, c['seg']), _mixed_req(c, c['mono'])]
+    if c['kind'] == 'mixed':
+        ext = [{'op': 'c03.extok', 'planes': [_box_req(pl[x]) for x in c['order'] if not isinstance(x, dict)]} for pl in (c['seg'], c['mono'])]
+        return [_mixed_req(c, c['seg']), _mixed_req(c, c['mono'])] + ext
     if c['kind'] == 'tilt':
         # the fitted OPD and tilt coefficients come from np.linalg.lstsq (trusted contract, C04): the model takes the fitted plane
         if 'exc' in io: return []
@@ -494,8 +510,8 @@ def requests(c, io):
         return [{'op': 'c03.chain', 'wavelength': vlib.fbits(c['wavelength']), 'wtilt': None, 'elements': [pl],
                  'prop': {'dx': vlib.fl(c['dx']), 'du': vlib.fl(c['du']), 'os': c['os'], 'shape': [c['oshape']] * 2, 'prop_shape': [c['pshape']] * 2}}]
     # third/fourth request: the theorems' input-level hypothesis ExtOK evaluated by the model on both descriptions
-    ext = [{'op': 'c03.extok', 'planes': [H7.plane_req(dict(p, px=None), 'cf' if c['mode'] == 'cf' else 'gi') for p in pl]} for pl in (c['seg'], c['mono'])]
-    return [_req(c, c['seg']), _req(c, c['mono'])] + (ext if c['mode'] == 'cf' else [])
+    ext = [{'op': 'c03.extok', 'planes': [_box_req(p) for p in pl]} for pl in (c['seg'], c['mono'])]
+    return [_req(c, c['seg']), _req(c, c['mono'])] + ext
 
 def _scale(c, key='field', pre=False):
     """bound on the compared quantity (tolerance = 1e-9*(1 + this)): |field| <= prod max|amp| before propagation and
@@ -541,7 +557,10 @@ def compare(c, io, mo):
     if c['kind'] == 'mixed':
         if 'exc' in io: return f"implementation raised {io['exc']}: {io.get('msg')}"
         b = (_scale(c, 'field', True), _scale(c, 'field'))
-        for name, m in zip(('seg', 'mono'), mo):
+        for name, m in zip(('seg', 'mono'), mo[2:]):
+            if not m.get('ok') or m.get('extok') is not True:
+                return f'{name}: the generator\'s scope test and the theorems\' hypothesis ExtOK disagree: model says {m}'
+        for name, m in zip(('seg', 'mono'), mo[:2]):
             d = _cmp_chain(io[name]['fields'], io[name]['field'], io[name]['intensity'], m, b)
             if d: return f'{name}: {d}'
         return None
@@ -648,9 +667,13 @@ def oracle(c, io):
         return f'monolithic field after the chain is not the product of amplitude * exp(2 pi i opd/lambda) over the planes (max {np.max(np.abs(got - want)):.3g})'
     # coherent addition: the intensity is the squared modulus of the summed complex amplitudes
     for name, r in (('segmented', s), ('monolithic', m)):
+        if r['pre'].get('reread_same') is False: return f'{name}: reading intensity/field again on the same wavefront gave different values'
         f = H7._np_arr(r['pre']['field'])
         if not H7._close(H7._np_arr(r['pre']['intensity']), H7._nsq(f), mode, _scale(c, 'intensity', True)): return f'{name}: intensity != |field|^2 before propagation'
     if 'prop' in c:
+        for name, r in (('segmented', s), ('monolithic', m)):
+            if r.get('reread_same') is False:
+                return f'{name}: reading field / intensity / insert repeatedly on the same propagated wavefront gave different values (a view modified Wavefront.data)'
         for key in ('field', 'intensity'):
             x, y = H7._np_arr(s[key]), H7._np_arr(m[key])
             if not H7._close(x, y, mode, _scale(c, key)):
